@@ -201,9 +201,7 @@ def align_exponents(*polys: PolyLike) -> Tuple[ndpoly, ...]:
                [5, 0]], dtype=uint32)
 
     """
-    polys_ = [numpoly.aspolynomial(poly) for poly in polys]
-    if not all(polys_[0].names == poly.names for poly in polys_):
-        polys_ = list(align_indeterminants(*polys_))
+    polys_ = list(align_indeterminants(*polys))
 
     global_exponents = numpy.vstack([poly.exponents for poly in polys_])
     global_exponents = numpy.unique(global_exponents, axis=0).tolist()
